@@ -48,7 +48,7 @@ def run_cases(ctx, classes=None, tier=None, tag="agentrun"):
     for c in cases:
         if c.get("infra"):
             ctx.notes.append("agentrun case %d (%s/%s) not observed: %s" % (c["k"], c["class"], c["sub"], c["infra"]))
-    return [c for c in cases if not c.get("infra")]
+    return [c for c in cases if not c.get("infra") and c.get("class") != "?"]
 
 
 def hist_actions(c):
